@@ -54,8 +54,9 @@ Inductive dres := DNeed | DErr | DPanic | DFrame (id : N) (op : tree) (ctrls : l
 (* `as i32` of a u64, reported as the two's-complement bit pattern mod 2^32 *)
 Definition as_i32 (n : N) : N := n mod 2^32.
 (* MessageID ::= INTEGER (0 .. maxInt), maxInt = 2^31 - 1 (RFC 4511 4.1.1): at most 8 content octets here, the sign bit clear, the value in range *)
-Definition id_ok (ib : list byte) : bool :=
+Definition id_ok0 (ib : list byte) : bool :=   (* the range check of repair F30, which let an INTEGER without content octets pass as 0 *)
   (length ib <=? 8)%nat && (match ib with [] => true | b0 :: _ => bN b0 <? 128 end) && (parse_uint ib <=? 2147483647).
+Definition id_ok (ib : list byte) : bool := match ib with [] => false | _ => id_ok0 ib end.   (* ... and with repair F38: at least one octet *)
 
 
 Definition envelope (tags : list tree) : outcome (option (N * tree * list ctrl)) :=   (* Ok None = decoding_error *)
